@@ -265,7 +265,8 @@ example : cubic 4 exX exY 2 4 ≤ cubic 4 exX exY 2 5 :=
 
 /-! ## 4b. The 1 % extrapolation zone: explicit bound of the excursion beyond the end values
 
-`Locate` accepts abscissae up to 1 % of the end interval's width beyond the two end abscissae and
+`Locate` accepts abscissae up to and including 1 % of the end interval's width beyond the two end abscissae
+(fix a411065: only arguments outside by MORE than one percent are rejected) and
 evaluates the end interval's cubic there.  Steffen's argument (section 4) does not cover that
 continuation, and the value does leave the range of the data — but by no more than the bound below. -/
 
@@ -275,21 +276,22 @@ theorem rabs_s_mul_h {N : Nat} {x y : Nat → Rat} (hx : StrictInc N x) {j : Nat
   rw [← s_mul_h (y := y) (ne_of_gt hh), rabs_eq_abs, rabs_eq_abs, abs_mul, abs_of_pos hh]
 
 /-- For every table (`N ≥ 3`, strictly increasing abscissae) and every query `v` of the right zone
-    `x_{N-1} < v < x_{N-1} + (x_{N-1} - x_{N-2})/100`, the last interval's cubic continued beyond the knot
+    `x_{N-1} < v ≤ x_{N-1} + (x_{N-1} - x_{N-2})/100` (closed at the one-percent edge: `Locate` accepts it
+    since fix a411065), the last interval's cubic continued beyond the knot
     satisfies `|P(v) - y_{N-1}| ≤ C·|s_{N-2}|·(v - x_{N-1})` with `C = 2 + 3/100 + 2/10000 = 10151/5000`,
     hence `|P(v) - y_{N-1}| ≤ (C/100)·|y_{N-1} - y_{N-2}|` (about 2.03 % of the last step of the data);
     mirror image in the left zone.  The constant is sharp (both end slopes at the limiter's cap `2s`,
     `v` at the far end of the zone). -/
 theorem extrapolation_zone_bound {N : Nat} {x y : Nat → Rat} (hN : 3 ≤ N) (hx : StrictInc N x) {v : Rat} :
-    (x (N - 1) < v → v < x (N - 1) + (x (N - 1) - x (N - 2)) / 100 →
+    (x (N - 1) < v → v ≤ x (N - 1) + (x (N - 1) - x (N - 2)) / 100 →
       rabs (cubic N x y (N - 2) v - y (N - 1)) ≤ 10151 / 5000 * rabs (s x y (N - 2)) * (v - x (N - 1))
       ∧ rabs (cubic N x y (N - 2) v - y (N - 1)) ≤ 10151 / 500000 * rabs (y (N - 1) - y (N - 2)))
-    ∧ (x 0 - (x 1 - x 0) / 100 < v → v < x 0 →
+    ∧ (x 0 - (x 1 - x 0) / 100 ≤ v → v < x 0 →
       rabs (cubic N x y 0 v - y 0) ≤ 10151 / 5000 * rabs (s x y 0) * (x 0 - v)
       ∧ rabs (cubic N x y 0 v - y 0) ≤ 10151 / 500000 * rabs (y 1 - y 0)) := by
   constructor
   · intro h0 h1
-    have b := cubic_zone_right (y := y) (show 2 ≤ N by omega) hx (le_of_lt h0) (le_of_lt h1)
+    have b := cubic_zone_right (y := y) (show 2 ≤ N by omega) hx (le_of_lt h0) h1
     have hj : N - 2 + 1 < N := by omega
     have e := rabs_s_mul_h (y := y) hx hj
     have eN : N - 2 + 1 = N - 1 := by omega
@@ -300,7 +302,7 @@ theorem extrapolation_zone_bound {N : Nat} {x y : Nat → Rat} (hN : 3 ≤ N) (h
     have := mul_le_mul_of_nonneg_left hd (rabs_nonneg (s x y (N - 2)))
     rw [← e]; linarith
   · intro h0 h1
-    have b := cubic_zone_left (y := y) (show 2 ≤ N by omega) hx (le_of_lt h0) (le_of_lt h1)
+    have b := cubic_zone_left (y := y) (show 2 ≤ N by omega) hx h0 (le_of_lt h1)
     have hj : 0 + 1 < N := by omega
     have e := rabs_s_mul_h (y := y) hx hj
     unfold zoneC at b
@@ -316,6 +318,12 @@ theorem extrapolation_zone_bound {N : Nat} {x y : Nat → Rat} (hN : 3 ≤ N) (h
 example : rabs (cubic 4 exX exY 2 (7 + 1 / 50) - exY 3) ≤ 10151 / 5000 * rabs (s exX exY 2) * (7 + 1 / 50 - exX 3) :=
   ((extrapolation_zone_bound (N := 4) (by decide) exX_inc (y := exY) (v := 7 + 1 / 50)).1 (by decide +kernel)
     (by decide +kernel)).1
+
+/-- … and exactly AT the one-percent edge `7 + 4/100` the bound still holds (and is where it is attained for
+    tables at the limiter's cap) -/
+example : rabs (cubic 4 exX exY 2 (7 + 1 / 25) - exY 3) ≤ 10151 / 500000 * rabs (exY 3 - exY 2) :=
+  ((extrapolation_zone_bound (N := 4) (by decide) exX_inc (y := exY) (v := 7 + 1 / 25)).1 (by decide +kernel)
+    (by decide +kernel)).2
 
 example : rabs (cubic 4 exX exY 0 (-1 / 200) - exY 0) ≤ 10151 / 500000 * rabs (exY 1 - exY 0) :=
   ((extrapolation_zone_bound (N := 4) (by decide) exX_inc (y := exY) (v := -1 / 200)).2 (by decide +kernel)
@@ -337,11 +345,11 @@ example : (0 : Rat) < 4 ∧ (0 : Rat) ≤ 13 / 4 ∧ (0 : Rat) ≤ 0 ∧ (0 : Ra
 /-- request level: in the two zones `Interpolate` answers from EVERY search state (no history
     dependence), with the end interval's cubic, and the answer obeys the bound (times `|prefactor|`) -/
 theorem interpolate_zone_bound (o : Obj) (hN : 3 ≤ o.N) (hx : StrictInc o.N o.x) {v : Rat} :
-    (o.x (o.N - 1) < v → v < o.x (o.N - 1) + (o.x (o.N - 1) - o.x (o.N - 2)) / 100 →
+    (o.x (o.N - 1) < v → v ≤ o.x (o.N - 1) + (o.x (o.N - 1) - o.x (o.N - 2)) / 100 →
       ∃ o', o.interpolate v = .ok (o.pref * cubic o.N o.x o.y (o.N - 2) v, o')
         ∧ rabs (o.pref * cubic o.N o.x o.y (o.N - 2) v - o.pref * o.y (o.N - 1))
             ≤ 10151 / 500000 * rabs (o.pref * (o.y (o.N - 1) - o.y (o.N - 2))))
-    ∧ (o.x 0 - (o.x 1 - o.x 0) / 100 < v → v < o.x 0 →
+    ∧ (o.x 0 - (o.x 1 - o.x 0) / 100 ≤ v → v < o.x 0 →
       ∃ o', o.interpolate v = .ok (o.pref * cubic o.N o.x o.y 0 v, o')
         ∧ rabs (o.pref * cubic o.N o.x o.y 0 v - o.pref * o.y 0)
             ≤ 10151 / 500000 * rabs (o.pref * (o.y 1 - o.y 0))) := by
